@@ -76,7 +76,7 @@ func buildHarness(sp *spec, scratch string, race bool) (string, error) {
 				return "", err
 			}
 			if strings.Contains(string(b), "//verif:instrument") {
-				out, changed, err := instr.Rewrite(dst, b, instr.Config{RuntimeImport: modPath + "/internal/zzverif/vsched"})
+				out, changed, err := instr.Rewrite(dst, b, instr.Config{RuntimeImport: modPath + "/internal/zzverif/vsched", HB: true})
 				if err != nil {
 					return "", fmt.Errorf("instrument harness %s: %w", src, err)
 				}
@@ -102,6 +102,36 @@ func buildHarness(sp *spec, scratch string, race bool) (string, error) {
 		if err := os.MkdirAll(idir, 0o755); err != nil {
 			return "", err
 		}
+		// monitored fields of the happens-before race monitor: collected over all instrumented packages
+		var accFields map[string]bool
+		if len(sp.AccessTypes) > 0 {
+			all := map[string][]byte{}
+			for _, pkg := range append(append([]string{}, sp.instrumentPkgs()...), sp.AccessTypePkgs...) {
+				ents, err := os.ReadDir(filepath.Join(repoDir, pkg))
+				if err != nil {
+					return "", err
+				}
+				for _, e := range ents {
+					n := e.Name()
+					if e.IsDir() || !strings.HasSuffix(n, ".go") || strings.HasSuffix(n, "_test.go") {
+						continue
+					}
+					b, err := os.ReadFile(filepath.Join(repoDir, pkg, n))
+					if err != nil {
+						return "", err
+					}
+					all[filepath.Join(pkg, n)] = b
+				}
+			}
+			var err error
+			accFields, err = instr.CollectFields(all, sp.AccessTypes)
+			if err != nil {
+				return "", err
+			}
+			for _, x := range sp.AccessExclude {
+				delete(accFields, x)
+			}
+		}
 		for _, pkg := range sp.instrumentPkgs() {
 			srcDir := filepath.Join(repoDir, pkg)
 			ents, err := os.ReadDir(srcDir)
@@ -123,6 +153,8 @@ func buildHarness(sp *spec, scratch string, race bool) (string, error) {
 					SyncImport:    modPath + "/internal/zzverif/vsync",
 					StmtPoints:    sp.StmtPoints,
 					AtomicRanges:  sp.AtomicRanges,
+					AccessFields:  accFields,
+					HB:            true,
 				})
 				if err != nil {
 					return "", fmt.Errorf("instrument %s: %w", src, err)
